@@ -108,12 +108,56 @@ class Interp:
         try:
             return getattr(o, n)
         except AttributeError:
+            v = self.from_source_class(o, n)
+            if v is not MISSING:
+                return v
             if d is MISSING:
                 raise Raised(f'AttributeError {n}')
             return d
 
     def fail(self, what):
         return Unsupported(f'{self.where}: {what}')
+
+    def from_source_class(self, o, name, after=None):
+        """A mock may name the repository class it stands for (`__srcclass__ = (model, ClassRef)`): an attribute the mock
+        does not define is then looked up through that class's MRO and, if it is a method, bound to the mock and folded --
+        so lines moved into a new private helper method are followed instead of failing the fold."""
+        funcs = getattr(o, '__srcfuncs__', None) if not isinstance(o, type) else None
+        if funcs and name in funcs and after is None:
+            node, owner = funcs[name], None
+        else:
+            src = getattr(o, '__srcclass__', None) if not isinstance(o, type) else None
+            if not src:
+                return MISSING
+            m, cls = src
+            fn, owner = m.method(cls, name, after)
+            node = getattr(fn, 'node', None)
+        if not isinstance(node, ast.FunctionDef):
+            return MISSING
+        decos = [ast.unparse(d).split('(')[0] for d in node.decorator_list]
+
+        def call(*a, **k):
+            old = self.g.get('super')
+            interp = self
+
+            class Sup:
+                def __getattribute__(s_, n):
+                    v = interp.from_source_class(o, n, after=owner)
+                    if v is MISSING:
+                        raise Raised(f'AttributeError super().{n}')
+                    return v
+            self.g['super'] = lambda *x: Sup()
+            try:
+                if any(isinstance(x, (ast.Yield, ast.YieldFrom)) for x in ast.walk(node)):
+                    return iter(self.generate(node, [o, *a], k))
+                return self.call(node, [o, *a], k)
+            finally:
+                self.g['super'] = old
+        if any(d in ('property', 'lazy.prop', 'cached_property') for d in decos):
+            return call()
+        if 'staticmethod' in decos:
+            return lambda *a, **k: self.call(node, list(a), k)
+        return call
 
     def generate(self, fn, args, kwargs=None):
         "call a generator function; returns the list of yielded values"
@@ -424,6 +468,9 @@ class Interp:
             try:
                 return getattr(o, e.attr)
             except AttributeError:
+                v = self.from_source_class(o, e.attr)
+                if v is not MISSING:
+                    return v
                 raise Raised(f'AttributeError {e.attr} on {o!r}')
         if isinstance(e, ast.Subscript):
             o = self.ev(e.value, env)
